@@ -670,6 +670,19 @@ fn run_schedule_inner(ctx: &Ctx, sched: &Schedule, job: usize, first: bool) -> O
         }
     }
     e.settle(150);
+    // a go that has no answer yet is not yet an unanswered go: on a loaded machine the waits above
+    // prove nothing. As long as the engine is alive, give the missing answers up to 8 more seconds
+    // (a late answer is then judged as a slow stop, i.e. re-run three times)
+    let owed = |e: &Engine| {
+        let gos = e.log.iter().filter(|x| x.src == Src::In && x.line.starts_with("go")).count();
+        let refused = e.log.iter().filter(|x| x.src == Src::Err && x.line.contains("already running")).count();
+        let answers = e.log.iter().filter(|x| x.src == Src::Out && x.line.starts_with("bestmove")).count();
+        gos.saturating_sub(refused).saturating_sub(answers)
+    };
+    let grace = std::time::Instant::now();
+    while owed(&e) > 0 && e.is_alive() && grace.elapsed().as_millis() < 8_000 {
+        e.settle(100);
+    }
     let slow = if first { check_history("C10", sched, &e, job, missed) } else { None };
     let lat = worst_stop_latency(&e);
     e.send("quit");
